@@ -24,6 +24,7 @@ PROPERTIES = {
              {"only": ["find_pattern_in_structure", "_get_positions_from_all_adjacent_unit_cells", "position_index_farthest_from_axis", "group_duplicates", "Atoms.copy"]}),
             (A.A2_copy_is_deep, "C01.5 copies are deep"),
             (C.C_quaternion_layout, "C01 rotation construction: quaternion layout (vector, scalar), same half angle, normalised axis, clipped angle"),
+            (C.C_roll_every_return, "C01 every return of the roll helper is the rotation built from the measured angle (no tolerance shortcut to the identity)"),
             (A2.A14b_fallback_axis, "C01 antiparallel poses: the fallback rotation axis is never degenerate by construction"),
         ],
         "decided": "element equality gate per pattern position; every earlier distance is re-checked with atol; no match is returned without passing "
@@ -101,6 +102,7 @@ PROPERTIES = {
             (A.A7_tolerance_provenance, "C05.2 the match rotation is accepted with the caller's tolerance", {"funcs": ["find_pattern_in_structure", "replace_pattern_in_structure"]}),
             (C.C_unchanged_pairs, "C05 replacement-only atoms are inserted, shared atoms kept: shared means coinciding coordinates"),
             (C.C_quaternion_layout, "C05 the match rotation is built as a proper rotation quaternion in SciPy's layout"),
+            (C.C_roll_every_return, "C05 every return of the roll helper is the rotation built from the measured angle (no tolerance shortcut to the identity)"),
         ],
         "decided": "both patterns are shifted by the same vector read before either is moved; the fragment goes copy < rotate < translate < wrap < extend on every path; "
                    "the final translation goes to the match position of the atom that was the origin; np.diag(cell) is used for wrapping only under an orthorhombic guard",
@@ -393,10 +395,13 @@ for _id, _sc in _SCOPES.items():
 _EXTRA = {
     "C01": [(C.C_element_gate_equality, "C01.1 the starting-atom helper compares elements by equality (no substring membership)")],
     "C02": [(C.C_quaternion_layout, "C02 every pose is reachable: quaternion layout, roll sense and roll branch test (a wrong sense rejects half of the poses of a chiral pattern)"),
+            (C.C_roll_every_return, "C02 every return of the roll helper is the rotation built from the measured angle (no tolerance shortcut to the identity)"),
             (D2.D7_hint_table, "C02 hint resolution table (a hint of 0 is a hint)"),
             (C.C_element_gate_equality, "C02 starting atoms: element equality"),
-            (A2.A15_none_tests, "C02 hints honoured for every valid index including 0 (a hint of 0 must not trigger the farthest-point fallback)")],
+            (A2.A15_none_tests, "C02 hints honoured for every valid index including 0 (a hint of 0 must not trigger the farthest-point fallback)"),
+            (C.C_axis_diag, "C02 copies across tilted faces are found only if the axis-aligned fast path is taken for exactly diagonal cell matrices")],
     "C03": [(C.C_quaternion_layout, "C03 the result does not depend on the pose: roll sense and roll branch test"),
+            (C.C_roll_every_return, "C03 every return of the roll helper is the rotation built from the measured angle (no tolerance shortcut to the identity)"),
             (D2.D7_hint_table, "C03.1 hint resolution table: a given hint is used as given (0 included), one axis hint selects the atom farthest from it, the orientation atom is computed only when absent"),
             (C.C_axis_diag, "C03 the orthorhombic fast path is taken only for exactly diagonal cell matrices"),
             (A2.A14b_fallback_axis, "C03 antiparallel poses: detection with tolerance, angle test without exact pi, non-degenerate fallback axis"),
@@ -404,7 +409,8 @@ _EXTRA = {
     "C04": [(D.D4_windows, "C04 every occurrence that is replaced must first be found: window bounds on all axes"),
             (C.C_axis_windows, "C04 triclinic windows: plane normals, widths, norms and inward signs are paired per axis"),
             (A2.A14b_fallback_axis, "C04 antiparallel poses are found: detection, angle test, non-degenerate fallback axis"),
-            (C.C_return_shape, "C04 the search returns the shape its flag announces on every path (an empty search is an empty result, not an unpack error)")],
+            (C.C_return_shape, "C04 the search returns the shape its flag announces on every path (an empty search is an empty result, not an unpack error)"),
+            (C.C_axis_diag, "C04 every occurrence in a tilted cell is found and wrapped correctly only if the orthorhombic test is exact")],
     "C05": [(C.C_fractional_wrap, "C05 triclinic wrap: fractional = positions . inverse(cell), back = fractional . cell (lattice vectors are rows)"),
             (C.C_idx_find, "C05 the index tuples, positions and rotations returned by the search stay parallel (a replacement is placed at the site whose atoms it removes)"),
             (C.C_wrap_modulus, "C05 inserted atoms are wrapped with period exactly 1 in fractional coordinates (inside the cell, by a lattice translation)"),
@@ -416,6 +422,7 @@ _EXTRA = {
     "C08": [(C.C_fractional_wrap, "C08 triclinic wrap in the row convention (a wrong basis shifts inserted atoms by non-lattice vectors, so the reverse search does not find the site)"),
             (C.C_axis_windows, "C08 the reverse search finds the replaced site again on triclinic cells: plane normals, widths, norms and inward signs are paired per axis"),
             (C.C_quaternion_layout, "C08 reversibility needs every pose to be found again: roll sense and roll branch test"),
+            (C.C_roll_every_return, "C08 every return of the roll helper is the rotation built from the measured angle (no tolerance shortcut to the identity)"),
             (A2.A14b_fallback_axis, "C08 reversibility needs every pose to be found again: antiparallel detection, angle test, fallback axis"),
             (C.C_roll_gate, "C08 the roll about the matched axis is applied to every match with more than two atoms"),
             (C.C_wrap_modulus, "C08 wraps are lattice translations (period 1 in fractional coordinates)")],
